@@ -100,22 +100,22 @@ fn into_sim_instr_table() {
 }
 
 // ---- C01 (iv) / C02: label operand -> PC offset ----------------------------------------------------
-/// `replace_pc_offset::<N>` on a label (BOUNDED: table with one label, one-letter name, query in either case):
+/// `replace_pc_offset::<N>` on a label (BOUNDED: table with one label, one-letter name; one obligation per
+/// (table entry, query spelling) so that `to_uppercase` runs on concrete text; addresses, PC, external flag symbolic):
 /// Ok(off) <=> (target - pc) fits N bits, off = target - pc; external => OffsetExternal; absent => CouldNotFindLabel.
-fn label_offset<const N: u32>() {
+fn label_offset<const N: u32>(entry: &'static str, query: &'static str) {
     let addr: u16 = kani::any();
     let pc: u16 = kani::any();
     let external: bool = kani::any();
-    let present: bool = kani::any();
+    let present = entry == "A";
     let mut label_map = HashMap::new();
-    label_map.insert(String::from(if present { "A" } else { "B" }), SymbolData { addr, src_start: 0, external });
+    label_map.insert(String::from(entry), SymbolData { addr, src_start: 0, external });
     let sym = SymbolTable { label_map, rel_map: HashMap::new(), debug_symbols: None };
-    let lower: bool = kani::any();
-    let r = replace_pc_offset::<N>(PCOffset::Label(Label::new(String::from(if lower { "a" } else { "A" }), 3..4)), pc, &sym);
+    let r = replace_pc_offset::<N>(PCOffset::Label(Label::new(String::from(query), 3..4)), pc, &sym);
     let d = addr.wrapping_sub(pc) as i16;
     let lo = -(1i32 << (N - 1)); let hi = (1i32 << (N - 1)) - 1;
     let fits = (d as i32) >= lo && (d as i32) <= hi;
-    kani::cover!(present && !external && fits, "resolved label reachable");
+    kani::cover!(!present || (!external && fits), "resolved label reachable");
     match r {
         Ok(off) => { assert!(present && !external && fits, "C02.offset: a label operand resolves only when defined, not external and in range");
                      assert!(off.get() == d, "C01.offset: the operand is the label address minus the address of the following word"); }
@@ -130,10 +130,18 @@ fn label_offset<const N: u32>() {
         }
     }
 }
-#[kani::proof] #[kani::stub(std::hash::RandomState::new, stub_random_state)] #[kani::unwind(6)]
-fn label_offset_9() { label_offset::<9>() }
-#[kani::proof] #[kani::stub(std::hash::RandomState::new, stub_random_state)] #[kani::unwind(6)]
-fn label_offset_11() { label_offset::<11>() }
+macro_rules! label_offset_harness {
+    ($name:ident, $n:literal, $entry:literal, $query:literal) => {
+        #[kani::proof] #[kani::stub(std::hash::RandomState::new, stub_random_state)] #[kani::unwind(6)]
+        fn $name() { label_offset::<$n>($entry, $query) }
+    };
+}
+label_offset_harness!(label_offset_9_lower, 9, "A", "a");
+label_offset_harness!(label_offset_9_upper, 9, "A", "A");
+label_offset_harness!(label_offset_9_absent, 9, "B", "a");
+label_offset_harness!(label_offset_11_lower, 11, "A", "a");
+label_offset_harness!(label_offset_11_upper, 11, "A", "A");
+label_offset_harness!(label_offset_11_absent, 11, "B", "A");
 /// numeric operand: returned unchanged, whatever the PC (complete)
 #[kani::proof] #[kani::stub(std::hash::RandomState::new, stub_random_state)] #[kani::stub(str::to_uppercase, unreachable_upper)] #[kani::unwind(6)]
 fn numeric_offset_passthrough() {
@@ -146,7 +154,8 @@ fn numeric_offset_passthrough() {
 #[kani::proof]
 fn ranges_overlap_contract() {
     let (a0, a1, b0, b1): (u16, u16, u16, u16) = (kani::any(), kani::any(), kani::any(), kani::any());
-    kani::assume(a0 <= a1 && b0 <= b1);
+    // precondition from the call sites: blocks are non-empty (empty blocks are skipped before the test)
+    kani::assume(a0 < a1 && b0 < b1);
     // two half-open intervals intersect iff some x lies in both <=> max(starts) < min(ends)
     let want = a0.max(b0) < a1.min(b1);
     kani::cover!(want, "overlap reachable");
@@ -245,27 +254,34 @@ fn one_label_table(addr: u16, src_start: usize, external: bool) -> SymbolTable {
     label_map.insert(String::from("Q"), SymbolData { addr, src_start, external });
     SymbolTable { label_map, rel_map: HashMap::new(), debug_symbols: None }
 }
-fn query(lower: bool, other: bool) -> &'static str { if other { if lower { "z" } else { "Z" } } else if lower { "q" } else { "Q" } }
-#[kani::proof] #[kani::stub(std::hash::RandomState::new, stub_random_state)] #[kani::unwind(6)]
-fn symtab_lookup_label() {
+fn symtab_lookup(query: &'static str) {
     let (addr, external): (u16, bool) = (kani::any(), kani::any());
     kani::assume(!external || addr == 0);
     let sym = one_label_table(addr, 7, external);
-    let (lower, other): (bool, bool) = (kani::any(), kani::any());
-    let r = sym.lookup_label(query(lower, other));
-    if other { assert!(r.is_none(), "C23.lookup: a name not in the program gives no result"); }
+    let r = sym.lookup_label(query);
+    if query == "z" || query == "Z" { assert!(r.is_none(), "C23.lookup: a name not in the program gives no result"); }
     else { assert!(r == Some(addr), "C23.lookup: under any letter case the address of the labelled statement (0 for an external)"); }
 }
-#[kani::proof] #[kani::stub(std::hash::RandomState::new, stub_random_state)] #[kani::unwind(6)]
-fn symtab_label_source() {
+fn symtab_source(query: &'static str) {
     let src_start: usize = kani::any();
     kani::assume(src_start < 1000);
     let sym = one_label_table(kani::any(), src_start, false);
-    let (lower, other): (bool, bool) = (kani::any(), kani::any());
-    let r = sym.get_label_source(query(lower, other));
-    if other { assert!(r.is_none(), "C23.source: a name not in the program gives no result"); }
+    let r = sym.get_label_source(query);
+    if query == "z" || query == "Z" { assert!(r.is_none(), "C23.source: a name not in the program gives no result"); }
     else { assert!(r == Some(src_start..src_start + 1), "C23.source: under any letter case the span of the label's first occurrence"); }
 }
+macro_rules! symtab_harness {
+    ($name:ident, $f:ident, $q:literal) => {
+        #[kani::proof] #[kani::stub(std::hash::RandomState::new, stub_random_state)] #[kani::unwind(6)]
+        fn $name() { $f($q) }
+    };
+}
+symtab_harness!(symtab_lookup_upper, symtab_lookup, "Q");
+symtab_harness!(symtab_lookup_lower, symtab_lookup, "q");
+symtab_harness!(symtab_lookup_other, symtab_lookup, "z");
+symtab_harness!(symtab_source_upper, symtab_source, "Q");
+symtab_harness!(symtab_source_lower, symtab_source, "q");
+symtab_harness!(symtab_source_other, symtab_source, "Z");
 #[kani::proof] #[kani::stub(std::hash::RandomState::new, stub_random_state)] #[kani::unwind(6)]
 fn symtab_rev_lookup_and_iter() {
     let (addr, external): (u16, bool) = (kani::any(), kani::any());
